@@ -43,6 +43,10 @@ def _gen_worker(args):
     if persist_dir:
         os.makedirs(persist_dir, exist_ok=True)
         pfile = os.path.join(persist_dir, f"p{seed}.{ext}")
+        if seed % 2:
+            # the persistence file configured as a bare file name in the working directory (the library's default is one)
+            os.chdir(persist_dir)
+            pfile = f"p{seed}.{ext}"
         for suffix in ("", ".bak"):
             _rm(pfile + suffix)
     tr = gwgen.run_history(rng, ver, fl, steps, profile=profile, calls=calls, persist=pfile,
@@ -111,8 +115,11 @@ class GwCheck:
     def __init__(self, pid, tier, proj, *, focus=(), versions=ALL_VERS, flavours=FLAVOURS, profile=None,
                  calls=True, persist=False, raising_share=0.3, steps=40, n_quick=50, n_thorough=1200,
                  sim_quick=60, sim_thorough=1500, nontrivial=None, sig_extra=None, exts=("json",),
-                 mc_depth_quick=6, mc_depth_thorough=8, sim_depth=14, mc_props=None, mc_invs=None, gen_opts=None):
+                 mc_depth_quick=6, mc_depth_thorough=8, sim_depth=14, mc_props=None, mc_invs=None, gen_opts=None,
+                 scripts=()):
         self.gen_opts = gen_opts or (lambda i: {"prefix": "mix"})
+        self.scripts = scripts             # hand-written histories: (version, flavour, [driver ops]) - a list, or a function of the
+                                           # firmware file path; validated like all others
         self.pid, self.tier, self.proj = pid, tier, proj
         self.focus, self.versions, self.flavours = focus, versions, flavours
         self.profile, self.calls, self.persist = profile, calls, persist
@@ -184,6 +191,13 @@ class GwCheck:
         with mp.get_context("fork").Pool(common.ncpu()) as pool:
             traces = pool.map(_gen_worker, jobs, chunksize=8)
             traces += pool.map(_replay_worker, rjobs, chunksize=8)
+        scripts = self.scripts(hexfile) if callable(self.scripts) else list(self.scripts)
+        for (ver, fl, ops) in scripts:
+            for real_link in (False, True):
+                tr = replay_ops({"ver": ver, "flavour": fl, "real_link": real_link}, ops)
+                tr["cfg"]["seed_note"] = "script"
+                traces.append(tr)
+        self.rep.cov["scripted_histories"] = 2 * len(scripts)
         self.rep.cov["simulated_behaviours_replayed"] = len(rjobs)
         self.rep.cov["random_histories"] = len(jobs)
         return traces
